@@ -585,6 +585,12 @@ func voteextProfile() *Profile {
 		}
 		return out
 	}
+	p.Shape = func(t *rapid.T, op *Op) {
+		// a quarter of the attestation requests ask for the same report twice at one height
+		if op.K == OpReqAttest && op.V == 0 && uni(t, "requestTwice", 4) == 0 {
+			op.S = "twice"
+		}
+	}
 	return p
 }
 
